@@ -4,8 +4,11 @@ package c14
 import (
 	"bytes"
 	"io"
+	"os"
 
+	"github.com/itchio/lake/tlc"
 	"github.com/itchio/savior/seeksource"
+	"github.com/itchio/wharf/pwr/bowl"
 	"github.com/itchio/wharf/pwr/overlay"
 	"github.com/itchio/wharf/zzverif/hlib"
 	"github.com/itchio/wharf/zzverif/rt"
@@ -115,5 +118,78 @@ func H_overlay() {
 	} else {
 		rt.Fail("final position beyond the data")
 	}
+	rt.Reach("end")
+}
+
+// H_bowl: the same property through the overlay bowl's entry writer - the code that owns the seeks on a resume:
+// the new content is written in `chunk`-byte writes to the writer the bowl hands out for a file that exists in the
+// old build; after the k-th write the writer is saved, the checkpoints go through gob, and a BRAND-NEW bowl and
+// writer resume from them (resume 0 = never); Commit; the file must equal the new content. Old and new contents
+// are fully symbolic, so the solver picks the equality patterns (incl. new[n+x] == old[m+x] for unrelated n, m).
+// Params: nold, nnew, chunk, resume.
+func H_bowl() {
+	hlib.SetCopyBuf()
+	nold, nnew := rt.Param("nold"), rt.Param("nnew")
+	chunk, resumeAt := rt.Param("chunk"), rt.Param("resume")
+	old := rt.Bytes("old", nold)
+	neu := rt.Bytes("new", nnew)
+	if rt.HasParam("long") {
+		// a long concrete old file (longer than any overlay offset reached) and symbolic new bytes after the first
+		// write: the solver can make them equal to ANY stretch of the old file, i.e. to whatever a misplaced reader sees
+		old = make([]byte, nold)
+		for i := range old {
+			old[i] = byte(i*7 + 3)
+		}
+		for i := 0; i < chunk && i < nnew; i++ {
+			neu[i] = byte(200 + i)
+		}
+	}
+	root := rt.TempDir()
+	dir, stage := root+"/install", root+"/stage"
+	(&hlib.Build{Files: []hlib.File{{Path: "f", Data: old}}}).Write(dir)
+	target := &tlc.Container{Size: int64(nold), Files: []*tlc.File{{Path: "f", Mode: 0o644, Size: int64(nold)}}}
+	source := &tlc.Container{Size: int64(nnew), Files: []*tlc.File{{Path: "f", Mode: 0o644, Size: int64(nnew)}}}
+	mk := func() (bowl.Bowl, bowl.EntryWriter) {
+		b, err := bowl.NewOverlayBowl(bowl.OverlayBowlParams{SourceContainer: source, TargetContainer: target, OutputFolder: dir, StageFolder: stage})
+		hlib.Must(err, "NewOverlayBowl")
+		w, err := b.GetWriter(0)
+		hlib.Must(err, "GetWriter")
+		return b, w
+	}
+	b, w := mk()
+	_, err := w.Resume(nil)
+	hlib.Must(err, "Resume(nil)")
+	pos, writes := 0, 0
+	for pos < nnew {
+		n := hlib.Min(chunk, nnew-pos)
+		_, err := w.Write(neu[pos : pos+n])
+		rt.Assert(err == nil, "Write returns no error")
+		pos += n
+		writes++
+		if resumeAt > 0 && writes == resumeAt {
+			wc, err := w.Save()
+			hlib.Must(err, "writer Save")
+			bc, err := b.Save()
+			hlib.Must(err, "bowl Save")
+			wc2, bc2 := &bowl.WriterCheckpoint{}, &bowl.BowlCheckpoint{}
+			hlib.Must(rt.CloneViaGob(wc2, wc), "writer checkpoint survives gob")
+			hlib.Must(rt.CloneViaGob(bc2, bc), "bowl checkpoint survives gob")
+			rt.Assert(wc.Offset == int64(pos), "the writer checkpoint is at the bytes of new content written")
+			hlib.Must(w.Close(), "close interrupted writer")
+			// a new process
+			b, w = mk()
+			hlib.Must(b.Resume(bc2), "bowl Resume")
+			off, err := w.Resume(wc2)
+			hlib.Must(err, "writer Resume")
+			rt.Assert(off == int64(pos), "the resumed writer continues where the checkpoint was taken")
+			pos = int(off)
+		}
+	}
+	rt.Assert(w.Finalize() == nil, "Finalize returns no error")
+	rt.Assert(w.Close() == nil, "Close returns no error")
+	rt.Assert(b.Commit() == nil, "Commit returns no error")
+	got, rerr := os.ReadFile(dir + "/f")
+	rt.Assert(rerr == nil, "the file exists after commit")
+	rt.Assert(len(got) == nnew && rt.BytesEqual(got, neu), "after commit the file equals the new content")
 	rt.Reach("end")
 }
